@@ -1,43 +1,13 @@
 (** Entry points for message / transaction identity hashes (C16). *)
 From Coq Require Import List NArith ZArith String Bool.
 From Tongo Require Import Lib.Bits Lib.Res Lib.Sx Spec.Sha256 Model.BocParse Model.CellHash Spec.ReprHash
-  Model.BocSer Proofs.CellHashP Proofs.DagP Model.MsgHash Model.MsgHist Harness.H07.
+  Model.BocSer Proofs.CellHashP Proofs.DagP Model.MsgHash Model.MsgOracle Model.MsgHist Harness.H07.
 Import ListNotations.
 Local Open Scope string_scope.
 Local Open Scope list_scope.
 
-(* The decoders that are not transcribed.  Dictionary acceptance (extra
-   currencies, StateInit.library) is tongo's own Hashmap.UnmarshalTLB (C05's
-   subject): the Go generator runs it on every cell of the case's DAG and hands
-   the answers over as two bit tables; out_msgs and TransactionDescr are only
-   exercised on real transactions, which tongo accepts. *)
-Fixpoint cell_eqb (a b : cell) {struct a} : bool :=
-  match a, b with
-  | Cell s1 t1 m1 d1 r1, Cell s2 t2 m2 d2 r2 =>
-      Bool.eqb s1 s2 && N.eqb t1 t2 && N.eqb m1 m2
-      && Nat.eqb (List.length d1) (List.length d2) && forallb (fun p => Bool.eqb (fst p) (snd p)) (combine d1 d2)
-      && (fix go (l1 l2 : list cell) : bool :=
-            match l1, l2 with
-            | [], [] => true
-            | x :: xs, y :: ys => cell_eqb x y && go xs ys
-            | _, _ => false
-            end) r1 r2
-  end.
-
-Fixpoint table_lookup (trees : list (res cell)) (tab : bits) (c : cell) : bool :=
-  match trees, tab with
-  | Ok t :: ts, b :: bs => if cell_eqb t c then b else table_lookup ts bs c
-  | _ :: ts, _ :: bs => table_lookup ts bs c
-  | _, _ => false
-  end.
-
-Definition table_oracle (trees : list (res cell)) (t0 t1 : bits) : oracle :=
-  mkoracle (fun kind c => match kind with
-                          | O => table_lookup trees t0 c
-                          | S O => table_lookup trees t1 c
-                          | _ => true
-                          end)
-           (fun _ => true).
+(* dictionaries and TransactionDescr: the transcription in Model/MsgOracle.v *)
+Definition the_oracle : oracle := real_oracle (hash_cell sha256).
 
 Definition info_kind (i : info) : N :=
   match i with IInt _ _ _ _ _ _ _ _ _ _ _ => 0 | IExtIn _ _ _ => 1 | IExtOut _ _ _ _ => 2 end%N.
@@ -56,17 +26,18 @@ Definition msg_sx (m : msg) : sx :=
       SBits (fst (m_body m));
       sx_nat (List.length (snd (m_body m)));
       addr_sx (info_src (m_info m));
-      addr_sx (info_dest (m_info m))].
+      addr_sx (info_dest (m_info m));
+      addr_sx (info_dest (m_info (after_hash true m)))].     (* the receiver's dest after Hash(true) *)
 
 Definition with_root (a : sx) (f : oracle -> list node -> nat -> cell -> list (res imm) -> sx) : sx :=
   match a with
-  | SL [SL dag; SN root; SBits t0; SBits t1] =>
+  | SL [SL dag; SN root] =>
       match nodes_of_sx dag with
       | Some cells =>
           let k := N.to_nat root in
           let trees := trees_of 0 cells in
           match nth_error trees k with
-          | Some (Ok c) => f (table_oracle trees t0 t1) cells k c (eval_dag sha256 0 cells)
+          | Some (Ok c) => f the_oracle cells k c (eval_dag sha256 0 cells)
           | _ => sx_err "root"
           end
       | None => sx_err "dag"
@@ -74,10 +45,28 @@ Definition with_root (a : sx) (f : oracle -> list node -> nat -> cell -> list (r
   | _ => sx_err "shape"
   end.
 
-(* c16.msg: (dag root tab0 tab1) -> 'err | (kind hash normhash init bodyref bodybits nbodyrefs src dest) *)
+(* c16.msg: (dag root) -> 'err | (kind hash normhash init bodyref bodybits nbodyrefs src dest) *)
 Definition run_msg (a : sx) : sx :=
   with_root a (fun o cells k c imms =>
     sx_res msg_sx (decode_message_gen o (cached_hash_of imms k) c)).
+
+(* c16.lib: (dag root target) -> as c16.msg, decoded by a Decoder whose library
+   resolver answers every hash with the cell at index [target] *)
+Definition run_lib (a : sx) : sx :=
+  match a with
+  | SL [SL dag; SN root; SN target] =>
+      match nodes_of_sx dag with
+      | Some cells =>
+          let trees := trees_of 0 cells in
+          match nth_error trees (N.to_nat root), nth_error trees (N.to_nat target) with
+          | Some (Ok c), Some (Ok ct) =>
+              sx_res msg_sx (decode_message_resolving sha256 (fun _ => Ok ct) the_oracle c)
+          | _, _ => sx_err "root"
+          end
+      | None => sx_err "dag"
+      end
+  | _ => sx_err "shape"
+  end.
 
 (* SourceBoc parses back to exactly one root whose hash is [h] *)
 Definition parses_back (h : bytes) (out : bytes) : bool :=
@@ -93,7 +82,7 @@ Definition parses_back (h : bytes) (out : bytes) : bool :=
   | _ => false
   end.
 
-(* c16.tx: (dag root tab0 tab1) -> 'err | (hash (in-msg hash normhash)? sourceboc parses-back) *)
+(* c16.tx: (dag root) -> 'err | (hash (in-msg hash normhash)? sourceboc parses-back) *)
 Definition run_tx (a : sx) : sx :=
   with_root a (fun o cells k c imms =>
     match decode_tx_gen o (cached_hash_of imms k) (hash_cell sha256) c with
@@ -114,9 +103,9 @@ Definition run_tx (a : sx) : sx :=
     end).
 
 (** *** histories on one variable (Model/MsgHist.v).  Input: ((source ...) (op ...)),
-    a source is (dag root tab0 tab1); ops: (0 i _) decode source i into the
+    a source is (dag root); ops: (0 i _) decode source i into the
     variable, (1) Hash / Hash(false), (2 _) SourceBoc / Hash(true), (3) continue
-    with a copy of the variable.  Everything a decode of source i can produce is
+    with a copy of the variable, (4) the destination as the variable now holds it.  Everything a decode of source i can produce is
     computed once per source. *)
 Record tsrc := mktsrc { ts_lib : bool; ts_hr : res bytes; ts_dr : res tx; ts_boc : sx }.
 Record msrc := mkmsrc { ms_lib : bool; ms_hr : res bytes;
@@ -124,13 +113,13 @@ Record msrc := mkmsrc { ms_lib : bool; ms_hr : res bytes;
 
 Definition with_source {A} (a : sx) (f : oracle -> list node -> nat -> cell -> list (res imm) -> A) : option A :=
   match a with
-  | SL [SL dag; SN root; SBits t0; SBits t1] =>
+  | SL [SL dag; SN root] =>
       match nodes_of_sx dag with
       | Some cells =>
           let k := N.to_nat root in
           let trees := trees_of 0 cells in
           match nth_error trees k with
-          | Some (Ok c) => Some (f (table_oracle trees t0 t1) cells k c (eval_dag sha256 0 cells))
+          | Some (Ok c) => Some (f the_oracle cells k c (eval_dag sha256 0 cells))
           | _ => None
           end
       | None => None
@@ -197,8 +186,13 @@ Fixpoint hmsg_go (srcs : list msrc) (ops : list sx) (v : mvar) : list sx :=
           | None => [sx_err "source"]
           end
       | SL (SN 1 :: _) => SBytes (mv_hash v) :: hmsg_go srcs rest v
-      | SL (SN 2 :: _) => sx_res SBytes (msg_obs_hash sha256 true v) :: hmsg_go srcs rest v
+      | SL (SN 2 :: _) => sx_res SBytes (msg_obs_hash sha256 true v) :: hmsg_go srcs rest (msg_after_hash true v)
       | SL (SN 3 :: _) => SA "copy" :: hmsg_go srcs rest v
+      | SL (SN 4 :: _) =>
+          (match mv_val v with
+           | Some m => addr_sx (info_dest (m_info m))
+           | None => SA "none"
+           end) :: hmsg_go srcs rest v
       | _ => [sx_err "op"]
       end
   end.
@@ -226,6 +220,7 @@ Definition run_hmsg (a : sx) : sx :=
 Definition run (name : string) (a : sx) : sx :=
   if String.eqb name "c16.msg" then run_msg a
   else if String.eqb name "c16.tx" then run_tx a
+  else if String.eqb name "c16.lib" then run_lib a
   else if String.eqb name "c16.htx" then run_htx a
   else if String.eqb name "c16.hmsg" then run_hmsg a
   else sx_err "unknown case kind".
